@@ -11,7 +11,7 @@ from __future__ import annotations
 import itertools
 
 from .. import qast as Q
-from ..common import (X, Y, A, L, leaves_xy, leaves_single, XY_REP, rich_world, VARS3, tiny_domains, grid_world,
+from ..common import (X, Y, Z, A, L, leaves_xy, leaves_single, XY_REP, rich_world, VARS3, tiny_domains, grid_world,
                       diff_rows, row_labels, is_exc, root_kind, exc_obs)
 from ..isolate import run_isolated
 from ..space import trees_by_depth
@@ -103,6 +103,16 @@ def cases(tier, inst):
         for t in trees_by_depth(leaves_xy(), 1):
             if thorough or bk in ("bx", "b5") or t[0] in ("or", "and"):
                 yield ("ninfer", bk, t, "rich")
+    # a field described by the(...) in terms of the row (the one z with z.p == x.p), in the head only / in the head and in a
+    # body condition (one object)
+    for t in trees_by_depth(leaves_xy(), 1):
+        if thorough or t[0] in ("cmp", "or", "and") or hash(t) % 2 == 0:
+            yield ("thehead", "head", t, "rich")
+            if t[0] in ("cmp", "in", "has", "pf", "pc") and "x" in Q.cond_vars(t):
+                # (a correlated the(...) in a condition needs its outer variable bound by what is written before it: over
+                # all x it has several solutions and raises, by design)
+                yield ("thehead", "both", t, "rich")
+    yield ("thehead", "head", None, "rich")
     # nested constructor term: matches Made2 instances already in the registry, reused as field values
     for pre in ((), ((0, 0),), ((0, 0), (1, 2)), ((0, 0), (0, 0)), ((3, 1), (2, 2), (0, 3))):
         for t in (None, XY_REP[0], XY_REP[2]):
@@ -120,6 +130,15 @@ def ninfer_query(case):
             VARS3[:2])
 
 
+THE_Z = ("sub1", ("Q", "the", "entity", Z, (("cmp", "eq", A(Z, "p"), A(X, "p")),), (VARS3[2],)))
+
+
+def thehead_query(case):
+    _, where, tree, w = case
+    conds = ((tree,) if tree else ()) + ((("cmp", "ge", A(THE_Z, "q"), L(1)),) if where == "both" else ())
+    return ("Q", "infer", "entity", ("new", "Made", (), (("a", X), ("b", THE_Z), ("c", Y))), conds, VARS3[:2])
+
+
 def pformrule_query(case):
     _, (quant, kind), tree, w = case
     hx = ("sub", ("Q", "an", kind, ("bound", "x", ("pform", "Item", "DA", (), ())), (), ()))
@@ -132,6 +151,10 @@ def query_of(case):
     if vk == "pformrule":
         # what the rule means (used by the reference semantics): one Made(a=x, b=y) per (x, y) satisfying the body
         return ("Q", "infer", "entity", ("new", "Made", (), (("a", X), ("b", Y))), (tree,), VARS3[:2])
+    if vk == "thehead":
+        # what it means: z is the one object of DC with z.p == x.p
+        conds = ((tree,) if tree else ()) + (("cmp", "eq", A(Z, "p"), A(X, "p")),) + ((("cmp", "ge", A(Z, "q"), L(1)),) if head == "both" else ())
+        return ("Q", "infer", "entity", ("new", "Made", (), (("a", X), ("b", Z), ("c", Y))), conds, VARS3)
     if vk == "ninfer":
         # what it means (for the reference semantics): the nested Made2 is compared structurally
         head = ("new", "Made", (), (("a", ("new", "Made2", (), (("a", X), ("b", Y)))), ("b", NINFER_B[head])))
@@ -159,10 +182,11 @@ def run_case(case, inst):
             pre = [W.Made2(a=world["DA"][i], b=world["DB"][j]) for i, j in case[1]]
         got2 = None
         try:
-            built = pformrule_query(case) if case[0] == "pformrule" else (ninfer_query(case) if case[0] == "ninfer" else q)
+            built = pformrule_query(case) if case[0] == "pformrule" else (ninfer_query(case) if case[0] == "ninfer" else
+                                                                          (thehead_query(case) if case[0] == "thehead" else q))
             obj, b = Q.build(built, world, inst, mode="rule")
             got = [(r,) for r in obj.evaluate()]
-            if case[0] == "ninfer":
+            if case[0] in ("ninfer", "thehead"):
                 got2 = [(r,) for r in obj.evaluate()]        # the same rule object evaluated again
         except Exception as e:
             got = exc_obs(e)
@@ -199,7 +223,7 @@ def run_case(case, inst):
     tree = case[2]
     res = {"ok": d is None, "nontrivial": 0 < nsol < total, "transitions": 1 + (0 if is_exc(got) else len(got)),
            "tags": [f"vars={case[0]}", f"root={root_kind(tree) if tree else 'none'}",
-                    "positional" if (case[0] not in ("nested", "pformrule", "ninfer") and case[1][2]) else "keyword",
+                    "positional" if (case[0] not in ("nested", "pformrule", "ninfer", "thehead") and case[1][2]) else "keyword",
                     "world=" + (case[3] if isinstance(case[3], str) else "tiny")],
            "outcome": str(nsol)}
     if d is not None:
@@ -214,5 +238,6 @@ def describe(case, inst):
         pre = "\n" + "\n".join(f"Made2(a=DA[{i}], b=DB[{j}])   # registered beforehand" for i, j in case[1])
     return (Q.up_world(world_of(case), inst) + pre + "\n"
             + Q.up_query(pformrule_query(case) if case[0] == "pformrule" else
-                         (ninfer_query(case) if case[0] == "ninfer" else query_of(case)), inst, mode="rule")
+                         (ninfer_query(case) if case[0] == "ninfer" else
+                          (thehead_query(case) if case[0] == "thehead" else query_of(case))), inst, mode="rule")
             + "\ninstances = list(q.evaluate())   # expected: one instance per satisfying assignment, built from it")
